@@ -191,8 +191,17 @@ func enum(c *mc.Ctx, alpha []string, maxTok int, tag, pad string) {
 		}
 		var rec func(prefix string, depth int, extend bool)
 		var local, localNT int64
+		outs := map[string]struct{}{}
+		defer func() {
+			for o := range outs {
+				c.Distinct("outcomes", o)
+			}
+		}()
 		rec = func(prefix string, depth int, extend bool) {
 			checkOne(c, u, prefix)
+			if len(outs) < 4096 {
+				outs[string(u.Path())] = struct{}{}
+			}
 			local++
 			if nontrivial(prefix) {
 				localNT++
